@@ -53,6 +53,15 @@ def token_index(f, sd, e):
         if e.k == "CallExpr" and e.name in ("strtol", "strtoul", "atoi", "_strtoll"):
             e = strip_casts(e.args()[0])
             continue
+        if e.k == "CallExpr" and e.name in f.tu.fn and f.tu.fn[e.name].body is not None:
+            # a conversion helper of the parser: a function that hands one of its parameters to strtol & co. and returns the result
+            g = f.tu.fn[e.name]
+            pn = [p_["name"] for p_ in g.params]
+            conv = [c for c in g.calls() if c.name in ("strtol", "strtoul", "strtoll", "atoi", "_strtoll") and c.args()
+                    and strip_casts(c.args()[0]) is not None and strip_casts(c.args()[0]).k == "DeclRefExpr" and strip_casts(c.args()[0]).name in pn]
+            if len(conv) == 1 and pn.index(strip_casts(conv[0].args()[0]).name) < len(e.args()):
+                e = strip_casts(e.args()[pn.index(strip_casts(conv[0].args()[0]).name)])
+                continue
         break
     if e is not None and e.k == "ArraySubscriptExpr" and (access_path(e.c[0]) or "").endswith("->tokens"):
         return e.c[1].v
